@@ -1058,24 +1058,28 @@ def same_failure(a, b):
     return True
 
 
+_OPEN = macroexp.STARTERS + ('IF',)
+_CLOSE = macroexp.ENDERS + ('ENDIF',)
+
+
 def _units(lines):
     """split a list of lines into units: a unit is (start, end) covering one line or one
-    whole construct (start line .. matching ENDM)"""
+    whole construct / IF block (start line .. matching ENDM / ENDIF)"""
     units = []
     i = 0
     n = len(lines)
     while i < n:
         _, op, _, _ = macroexp.split_line(lines[i])
         u = op.upper() if op else ''
-        if u in macroexp.STARTERS:
+        if u in _OPEN:
             depth = 0
             j = i + 1
             while j < n:
                 _, o2, _, _ = macroexp.split_line(lines[j])
                 u2 = o2.upper() if o2 else ''
-                if u2 in macroexp.STARTERS:
+                if u2 in _OPEN:
                     depth += 1
-                elif u2 in macroexp.ENDERS:
+                elif u2 in _CLOSE:
                     if depth == 0:
                         break
                     depth -= 1
@@ -1088,7 +1092,7 @@ def _units(lines):
     return units
 
 
-def reduce_case(ctx, files, bins, cs, cpu, first, budget=90):
+def reduce_case(ctx, files, bins, cs, cpu, first, budget=120):
     """hierarchical delta reduction: delete units (single lines / whole constructs) in halving
     chunks while the same kind of failure persists, then descend into the constructs that are
     left, then delete single operands."""
@@ -1153,7 +1157,7 @@ def reduce_case(ctx, files, bins, cs, cpu, first, budget=90):
         while pos < new_hi and tries[0] < budget:
             cur = files[fname].split('\n')
             _, op, _, _ = macroexp.split_line(cur[pos])
-            if op and op.upper() in macroexp.STARTERS:
+            if op and op.upper() in _OPEN:
                 us = _units(cur[pos:new_hi])
                 end = pos + us[0][1]
                 if end - pos >= 2:
@@ -1171,10 +1175,12 @@ def reduce_case(ctx, files, bins, cs, cpu, first, budget=90):
             reduce_span(fname, 0, len(files[fname].split('\n')))
     if tries[0] < budget:
         reduce_span('main.asm', 0, len(files['main.asm'].split('\n')))
-    # operands
-    for fname in sorted(reachable(files)):
+    # operands (bottom-up: calls are usually below the definitions they constrain; repeated while it helps)
+    for rnd in range(3):
+      before = tries[0], dict(files)
+      for fname in sorted(reachable(files)):
         lines = files[fname].split('\n')
-        for i in range(len(lines)):
+        for i in range(len(lines) - 1, -1, -1):
             if tries[0] >= budget:
                 break
             label, op, attr, args = macroexp.split_line(lines[i])
@@ -1199,6 +1205,8 @@ def reduce_case(ctx, files, bins, cs, cpu, first, budget=90):
                     parts = cand_parts
                 k -= 1
         files[fname] = '\n'.join(lines)
+      if files == before[1] or tries[0] >= budget:
+          break
     # equ lines that are not needed any more only clutter the witness: drop those whose name does not occur elsewhere
     main = files['main.asm'].split('\n')
     rest = '\n'.join(l for l in main if not re.match(r'^\S+\s+equ\s', l)) + '\n'.join(files[f] for f in files if f != 'main.asm')
